@@ -92,6 +92,9 @@ def ev_call(ex, n, st, spec, b):
             from .world import UPPER, LOWER
             ex.cx.need_char_axioms = True
             return (UPPER if name == "upper_code" else LOWER)(zint(E(n.args[0])))
+        if name == "field":
+            a_ = E(n.args[0])
+            return a_.arr[n.args[1].value][a_.off + zint(E(n.args[2]))]
         if name == "off":
             return E(n.args[0]).off
         if name == "seq_eq":
